@@ -2,6 +2,7 @@ import UberjobModel.Lemmas.EnginePath
 import UberjobModel.Lemmas.GraphWF
 import UberjobModel.Lemmas.EngineExamples
 import UberjobModel.Lemmas.PhysBuild
+import UberjobModel.Lemmas.EngineRefine
 /-!
 # C01 — a call never starts before everything it depends on has finished successfully
 
@@ -40,6 +41,51 @@ theorem C01_counter {g : Graph} (hg : g.WF) {cfg : Cfg} {s : St} (h : Reach g cf
     ∀ y, 2 ≤ g.predCount y → s.rem y + s.rel.countP (fun e => e.2 == y) = g.predCount y :=
   (inv_reach hg h).remOk
 
+
+/-! ### The lock-protected block, step by step
+
+In the model above the handling of a multi-parent successor — `with remaining_pred_count_lock:` decrement, test, `queue.put` —
+is ONE step.  `Model/EngineFine.lean` splits it into five (acquire, decrement, test, put, release), with every other thread
+free to take any of its own steps in between (a second thread that wants the lock waits).  `Lemmas/EngineRefine.lean` proves
+that every reachable state of that finer model stands for a reachable state of the coarse one (`refine_reach`: the five steps
+are `stutter, stutter, stutter, release, stutter`), so the safety theorems carry over — the reduction "lock-protected region
+= one atomic step" is a theorem for this lock, not an assumption. -/
+
+open Uberjob.EngineFine in
+/-- **C01 in the fine model**: whatever the interleaving of the individual statements of the locked block with the other
+    threads, a begun node has every direct and transitive predecessor completed OK, no node begins twice, and the locked
+    decrement always finds a positive counter. -/
+theorem C01_fine {g : Graph} (hg : g.WF) {cfg : Cfg} {s : St2} (h : Reach2 g cfg s) :
+    (∀ x ∈ s.c.begun, ∀ p ∈ g.preds x, p ∈ s.c.okd) ∧
+    (∀ p x, Path g p x → x ∈ s.c.begun → p ∈ s.c.okd) ∧
+    s.c.begun.Nodup ∧
+    (∀ r, s.lock = some r → r.stage = .acquired → 1 ≤ s.c.rem r.y) := by
+  obtain ⟨hr, _⟩ := refine_reach hg h
+  obtain ⟨_, _, _, _, _, _, _, hb, ho, _⟩ := abs_fields s
+  refine ⟨?_, ?_, ?_, fun r hl hst => dec_positive hg h hl hst⟩
+  · intro x hx p hp
+    have := C01_direct hg hr x (by rw [hb]; exact hx) p hp
+    rwa [ho] at this
+  · intro p x hpx hx
+    have := C01_transitive hg hr hpx (by rw [hb]; exact hx)
+    rwa [ho] at this
+  · have := (inv_reach hg hr).begunNodup
+    rwa [hb] at this
+
+/-- Non-vacuity: on the diamond (0 → 1, 2 → 3, with a parallel edge 1 ⇒ 3), worker 1 takes the lock for node 3 and
+    decrements; worker 0 — which finished node 1 meanwhile — cannot take the lock (`acquire 0 3` is not enabled) until
+    worker 1 has tested (not ready), skipped the put and released it; then worker 0's own block finds the counter at 0 and
+    puts node 3. -/
+def diamondFine : List EngineFine.Label2 :=
+  [.base .spawn, .base .spawn, .base (.get 0 (.node 0)), .base (.check 0), .base (.finOk 0),
+   .base (.release 0 1), .base (.release 0 2), .base (.taskDone 0),
+   .base (.get 0 (.node 1)), .base (.get 1 (.node 2)), .base (.check 0), .base (.check 1), .base (.finOk 1),
+   .acquire 1 3, .dec 1, .base (.finOk 0), .test 1, .put 1, .unlock 1,
+   .acquire 0 3, .dec 0, .test 0, .put 0, .unlock 0]
+example : ((EngineFine.run2? diamond ⟨2, some 0⟩ (EngineFine.init2 diamond) diamondFine).map
+    (fun s => (s.c.queue, s.c.rem 3, s.lock.isSome))) = some ([.node 3], 0, false) := by decide
+example : ((EngineFine.run2? diamond ⟨2, some 0⟩ (EngineFine.init2 diamond)
+    (diamondFine.take 16 ++ [.acquire 0 3])).isSome) = false := by decide
 
 /-! ### The user's own dependency relation (registry-less run)
 
